@@ -34,9 +34,9 @@ def cases(ctx):
     rng = ctx.rng("C08")
     g1 = [p for p in ctx.family("G1") if C01.no_x(p)]
     g2 = ctx.family("G2")
-    g2s = rng.sample(g2, 250 if ctx.quick else 2500)
+    g2s = rng.sample(g2, 250 if ctx.quick else 1200)
     cyc = []
-    for p in rng.sample(g2, 300 if ctx.quick else 3000):
+    for p in rng.sample(g2, 300 if ctx.quick else 1500):
         cyc += C01.cyclic_variants(p, rng)
     g1s = g1 if not ctx.quick else [p for i, p in enumerate(g1) if i % 2 == ctx.seed % 2]
     fams = [("G1", g1s), ("G2", g2s), ("GC", cyc), ("BB", C01.bb_small(rng))]
@@ -57,7 +57,7 @@ def cases(ctx):
 
     for j in range(30 if ctx.quick else 300):
         r = ctx.rng("C08g3", j)
-        c = gen.rand_circuit(r, n_in=r.randint(1, 5 if ctx.quick else 8), n_gates=r.randint(3, 14), max_fanin=4)
+        c = gen.rand_circuit(r, n_in=r.randint(1, 5 if ctx.quick else 6), n_gates=r.randint(3, 14), max_fanin=4)
         if r.random() < 0.4:
             gen.add_flops(r, c, n_flops=r.randint(1, 2))
         p = proj(c)
